@@ -196,6 +196,30 @@ pub enum SnapFmt {
     BincodeFramed,
     /// the same inside a JSON array
     JsonFramed,
+    /// bincode written with `serialize_into`, read back with `deserialize_from` through a reader that
+    /// delivers 1..5 bytes per `read` call (short reads; nothing can be borrowed from the input)
+    BincodeReader,
+    /// pretty-printed JSON, read back with `serde_json::from_reader` through the same short-read
+    /// reader (map keys arrive as owned strings, never borrowed)
+    JsonReader,
+    /// serialised into a `serde_json::Value` document and its bytes; the bytes are read back into a
+    /// `Value` and the generator is deserialised from that (keys arrive owned and in sorted order)
+    JsonValue,
+}
+
+/// A reader over a byte image that returns at most 1..5 bytes per call (deterministic in the position).
+pub struct ShortReader<'a> {
+    pub data: &'a [u8],
+    pub pos: usize,
+}
+impl<'a> std::io::Read for ShortReader<'a> {
+    fn read(&mut self, buf: &mut [u8]) -> std::io::Result<usize> {
+        let left = self.data.len() - self.pos;
+        let k = (1 + (self.pos * 7 + 3) % 5).min(left).min(buf.len());
+        buf[..k].copy_from_slice(&self.data[self.pos..self.pos + k]);
+        self.pos += k;
+        Ok(k)
+    }
 }
 
 pub const FRAME_MARK: u32 = 0x5EA1_ED01;
@@ -306,6 +330,48 @@ pub fn call_generic() -> bool {
     CALL_GENERIC.load(std::sync::atomic::Ordering::Relaxed)
 }
 
+struct SendRef(*const (dyn DynGen + 'static));
+unsafe impl Send for SendRef {}
+impl SendRef {
+    /// (a method, so that a closure captures the whole wrapper and not its raw-pointer field)
+    fn texts(&self) -> (String, String) {
+        unsafe { (*self.0).debug() }
+    }
+}
+
+/// Debug texts of `g`, produced in ambient context `ctx` (see `Spec.ctx`). Context 1 formats inside
+/// a destructor that runs while the thread unwinds from a panic raised by the harness itself with
+/// `resume_unwind` (no hook runs; `std::thread::panicking()` is true); the caller has formatted
+/// the value once before, so a Debug implementation that panics was already seen outside.
+/// Context 2 formats on a freshly spawned thread (every generator type is Send + Sync, which C19
+/// checks statically).
+pub fn debug_in_ctx(g: &dyn DynGen, ctx: u8) -> (String, String) {
+    match ctx {
+        1 => {
+            struct OnUnwind<'a>(&'a dyn DynGen, &'a std::cell::RefCell<Option<(String, String)>>);
+            impl<'a> Drop for OnUnwind<'a> {
+                fn drop(&mut self) {
+                    *self.1.borrow_mut() = Some(self.0.debug());
+                }
+            }
+            let out = std::cell::RefCell::new(None);
+            let r = std::panic::catch_unwind(std::panic::AssertUnwindSafe(|| {
+                let _g = OnUnwind(g, &out);
+                std::panic::resume_unwind(Box::new("harness: unwinding context"));
+            }));
+            assert!(r.is_err(), "harness: unwinding context did not unwind");
+            let t = out.borrow_mut().take();
+            t.expect("harness: destructor did not run")
+        }
+        2 => {
+            // the scoped thread is joined before `g` can go away
+            let p = SendRef(unsafe { std::mem::transmute::<*const dyn DynGen, *const (dyn DynGen + 'static)>(g as *const dyn DynGen) });
+            std::thread::scope(|s| s.spawn(move || p.texts()).join()).expect("harness: formatting thread")
+        }
+        _ => g.debug(),
+    }
+}
+
 /// Debug texts: `{:?}`, and `{:#?}` followed by the texts under every other formatter flag a Debug
 /// implementation can look at (hex flags, sign, width, precision, zero padding, alignment).
 pub fn dbg_texts<T: std::fmt::Debug>(x: &T) -> (String, String) {
@@ -351,6 +417,13 @@ macro_rules! m_snap {
                 SnapFmt::Json => Some(serde_json::to_vec($s).expect("json serialize")),
                 SnapFmt::BincodeFramed => Some(bincode::serialize(&($s, FRAME_MARK, $s, FRAME_MARK ^ 1)).expect("bincode serialize")),
                 SnapFmt::JsonFramed => Some(serde_json::to_vec(&($s, FRAME_MARK, $s, FRAME_MARK ^ 1)).expect("json serialize")),
+                SnapFmt::BincodeReader => {
+                    let mut v = Vec::new();
+                    bincode::serialize_into(&mut v, $s).expect("bincode serialize_into");
+                    Some(v)
+                }
+                SnapFmt::JsonReader => Some(serde_json::to_vec_pretty($s).expect("json serialize")),
+                SnapFmt::JsonValue => Some(serde_json::to_vec(&serde_json::to_value($s).expect("json to_value")).expect("json serialize")),
             }
         }
         #[cfg(not(feature = "snap"))]
@@ -382,6 +455,9 @@ macro_rules! m_restore {
                 SnapFmt::Json => serde_json::from_slice($bytes).map_err(|e| e.to_string()),
                 SnapFmt::BincodeFramed => framed(bincode::deserialize($bytes).map_err(|e| e.to_string())),
                 SnapFmt::JsonFramed => framed(serde_json::from_slice($bytes).map_err(|e| e.to_string())),
+                SnapFmt::BincodeReader => bincode::deserialize_from(ShortReader { data: $bytes, pos: 0 }).map_err(|e| e.to_string()),
+                SnapFmt::JsonReader => serde_json::from_reader(ShortReader { data: $bytes, pos: 0 }).map_err(|e| e.to_string()),
+                SnapFmt::JsonValue => serde_json::from_slice::<serde_json::Value>($bytes).and_then(serde_json::from_value).map_err(|e| e.to_string()),
             };
             r.map(|g| Box::new($w(g)) as Box<dyn DynGen>)
         }
@@ -913,6 +989,9 @@ pub fn restore_core(kind: CoreKind, fmt: SnapFmt, bytes: &[u8]) -> Result<Box<dy
             match fmt {
                 SnapFmt::Bincode | SnapFmt::BincodeFramed => bincode::deserialize(bytes).map_err(|e| e.to_string()),
                 SnapFmt::Json | SnapFmt::JsonFramed => serde_json::from_slice(bytes).map_err(|e| e.to_string()),
+                SnapFmt::BincodeReader => bincode::deserialize_from(ShortReader { data: bytes, pos: 0 }).map_err(|e| e.to_string()),
+                SnapFmt::JsonReader => serde_json::from_reader(ShortReader { data: bytes, pos: 0 }).map_err(|e| e.to_string()),
+                SnapFmt::JsonValue => serde_json::from_slice::<serde_json::Value>(bytes).and_then(serde_json::from_value).map_err(|e| e.to_string()),
             }
         }
         match kind {
